@@ -4,5 +4,5 @@ CONSTANTS
   AttrMaxLen = 2
   Alphabet = {120, 60, 38, 62, 93, 34, 39, 9, 10, 13, 233, 128512}
   Dump = FALSE
-INVARIANTS InDomainAlways
+INVARIANTS InDomainAlways RT
 CHECK_DEADLOCK FALSE
